@@ -4326,6 +4326,9 @@ class NameCheckVisitor(node_visitor.ReplacingNodeVisitor):
             with self.scopes.subscope() as body_scope:
                 pass
         with self.scopes.subscope() as else_scope:
+            # The else block runs after the last iteration (or right away if there
+            # was none), so it also sees what the loop body left behind.
+            self._combine_with_previous_iteration(body_scope)
             self._generic_visit_list(orelse)
         self.scopes.combine_subscopes([body_scope, else_scope])
 
